@@ -416,8 +416,57 @@ def overlapping_opens(rec, case):
     c11.run_overlap(rec, case['overlap'])
 
 
+def run_cancelled_senders(rec, case):
+    """asyncio engines: application tasks that call send() and are cancelled
+    a few loop iterations later (a wait_for() time-out around the call, a
+    cancelled request handler). Whether such a message goes out is open; it
+    never goes out twice, and the sends around it are untouched."""
+    from vf.simbase import decode_payload
+    srv = case['cancel']
+    rec.evaluations += 1
+    rec.count('cancelled_sender_scenarios')
+    rec.key('cancel/' + srv)
+    sim = scen.make_sim(srv)
+    try:
+        h = sim.open_polling()
+        want = []
+        for k in range(12):
+            sim.app_call('send', h.sid, 'before%d' % k)
+            t = sim.app_call('send', h.sid, 'maybe%d' % k)
+            sim.step(k % 5)
+            if t.task is not None and not t.task.done():
+                t.task.cancel()
+                rec.count('senders_cancelled_in_flight')
+            sim.quiesce()
+            want.append('before%d' % k)
+        got = []
+        for _ in range(8):
+            p = sim.poll(h)
+            sim.quiesce()
+            if not p.done or p.code != 200:
+                break
+            pk = decode_payload(p.text())
+            got += [d for tp, d in pk if tp == 4]
+            if not any(tp == 4 for tp, d in pk):
+                break
+        dup = sorted({g for g in got if got.count(g) > 1})
+        if dup:
+            rec.viol('message-duplicated', 'messages delivered more than '
+                     'once after their senders were cancelled: %r | server=%s'
+                     % (dup, srv), case)
+        if [g for g in got if g.startswith('before')] != want:
+            rec.viol('message-lost', 'the sends around the cancelled ones '
+                     'arrived as %r | server=%s' % (
+                         [g for g in got if g.startswith('before')], srv),
+                     case)
+    finally:
+        sim.teardown()
+
+
 def dispatch(rec, case):
-    if case.get('overlap'):
+    if case.get('cancel'):
+        run_cancelled_senders(rec, case)
+    elif case.get('overlap'):
         overlapping_opens(rec, case)
     elif case.get('dfs'):
         dfs_small(rec, case)
@@ -449,6 +498,8 @@ def plan(tier, seed):
                      [True, None]):
             late.append({'overlap': {'srv': srv, 'n': len(outs),
                                      'outcomes': outs}})
+    for srv in 'AHN':
+        late.append({'cancel': srv})
     for i in range(4):
         shards.append({'lates': late[i::4]})
     if tier == 'thorough':
